@@ -7,7 +7,8 @@
      5 Interval         [delta microseconds]                 (end - start of two native datetimes)
    Result encoding: 0 :: kind :: values (normal), 1 :: [exn code] (raise), 9 :: [] (bad call).
    Result kinds: 1 Duration (dur_obs) | 2 int | 3 float | 4 (int, Duration) | 5 plain timedelta (d, s, us) | 6 (int, plain timedelta)
-                 | 7 bool | 8 triple | 15 NotImplemented *)
+                 | 7 bool | 8 triple | 15 NotImplemented (in a history: no pendulum operand)
+   history: the outcomes of all steps, each preceded by its length. *)
 From Coq Require Import ZArith List Bool.
 From Coq Require Import Floats.SpecFloat.
 From PV Require Import Lib.PyBase Spec.TdFloat Gen.Constants Model.Duration Gen.DurationOps Model.DurationOps.
@@ -44,6 +45,37 @@ Definition of_res (r : result opres) : list Z :=
 Definition of_resZ (r : result Z) : list Z :=
   match r with Ok z => [0; z] | Raise e => [1; exn_code e] end.
 
+(* a history travels as 22 integers per step: tag (1 binary, 2 unary); method; operand; operand (zeros for a unary step).
+   Operand kinds 1..5 as above, 6 = the object returned by step a1, anything else (7: AbsoluteDuration) is not modelled *)
+Definition operand_of (k : Z) (a : list Z) : operand := if k =? 6 then ORef (hd 0 a) else OLit (decode k a).
+
+Fixpoint parse_history (a : list Z) : option (list hstep) :=
+  match a with
+  | [] => Some []
+  | tag :: m :: k1 :: a1 :: a2 :: a3 :: a4 :: a5 :: a6 :: a7 :: a8 :: a9 :: k2 :: b1 :: b2 :: b3 :: b4 :: b5 :: b6 :: b7 :: b8 :: b9 :: rest =>
+      match parse_history rest with
+      | Some t =>
+          let l := operand_of k1 [a1; a2; a3; a4; a5; a6; a7; a8; a9] in
+          if tag =? 1 then Some (HBin m l (operand_of k2 [b1; b2; b3; b4; b5; b6; b7; b8; b9]) :: t)
+          else if tag =? 2 then Some (HUn m l :: t) else None
+      | None => None
+      end
+  | _ => None
+  end.
+
+(* the outcome of every step, each preceded by its length *)
+Definition enc_history (rs : list (result opres)) : list Z :=
+  flat_map (fun r => let e := of_res r in Z.of_nat (length e) :: e) rs.
+
+Definition dispatch_history (a : list Z) : list Z :=
+  match parse_history a with Some h => enc_history (run_history h) | None => [9] end.
+
+Definition dispatch_divisor (k : Z) (a : list Z) : list Z :=
+  match decode k a with
+  | Ok v => match divisor_us v with Some u => [0; u] | None => [1; exn_code E_TypeError] end
+  | Raise e => [1; exn_code e]
+  end.
+
 Definition dispatch (fn : Z) (args : list Z) : list Z :=
   match fn, args with
   | 1 (* binop *), [m; k1; a1; a2; a3; a4; a5; a6; a7; a8; a9; k2; b1; b2; b3; b4; b5; b6; b7; b8; b9] =>
@@ -62,5 +94,7 @@ Definition dispatch (fn : Z) (args : list Z) : list Z :=
   | 7 (* divide_and_round_float *), [a; t; m; e] => of_resZ (divide_and_round_float a (sf_decode t m e))
   | 8 (* dur_fsec *), [t; m; e; y; mo] =>
       match duration_new_fsec (sf_decode t m e) y mo with Ok d => 0 :: dur_obs d | Raise ex => [1; exn_code ex] end
+  | 9 (* history *), a => dispatch_history a
+  | 10 (* divisor_us *), [k; a1; a2; a3; a4; a5; a6; a7; a8; a9] => dispatch_divisor k [a1; a2; a3; a4; a5; a6; a7; a8; a9]
   | _, _ => [9]
   end.
